@@ -26,10 +26,18 @@ def main():
     patch = os.path.join(cand, "patch%s.diff" % k)
     demo = os.path.join(cand, "demo%s_test.go" % k)
     meta = json.load(open(os.path.join(cand, "meta%s.json" % k)))
-    loc = meta.get("demo_location", ".")
-    loc = re.sub(r"^/tmp/mutwt/C\d+/?", "", loc).strip("/") or "."
-    if loc in ("module root", "root", "module root (package randomness_test)"):
+    src = open(demo).read()
+    pm = re.search(r"^package\s+(\w+)", src, re.M)
+    pkg = pm.group(1) if pm else "randomness_test"
+    if pkg in ("randomness", "randomness_test"):
         loc = "."
+    elif pkg in ("detect", "detect_test"):
+        loc = "detect"
+    elif pkg in ("fft", "fft_test"):
+        loc = "fft"
+    else:  # package main: one of the tools
+        txt = json.dumps(meta)
+        loc = "tools/rdgen" if "rdgen" in txt else "tools/rddetector"
     wt = "/tmp/rehearse/wt_%s_%s" % (prop, k)
     shutil.rmtree(wt, ignore_errors=True)
     os.makedirs("/tmp/rehearse", exist_ok=True)
